@@ -380,8 +380,78 @@ class Effects:
                 return frozenset({"ImportError"})
             if n.kind == "stmt" and self._telemetry_safe(fn, a, n):
                 return NONE
+            if self._only_str_concat(fn, a):
+                return NONE  # `"v" + text + SUFFIX` with every operand provably a str: concatenation cannot raise
             return frozenset({"LookupError", "TypeError", "ValueError", "ArithmeticError"})
         return ANY
+
+    # ------------------------------------------------- string concatenation of provable strings
+    STR_RESULT_METHODS = {"decode", "strip", "lstrip", "rstrip", "lower", "upper", "replace", "format", "join", "hex", "casefold", "title",
+                          "removeprefix", "removesuffix", "zfill", "ljust", "rjust", "center", "capitalize", "swapcase", "expandtabs"}
+
+    def _provably_str(self, fn: FunctionInfo, e: Optional[ast.AST], depth: int = 0) -> bool:
+        if e is None or depth > 5:
+            return False
+        if isinstance(e, ast.Constant):
+            return isinstance(e.value, str)
+        if isinstance(e, ast.JoinedStr):
+            return True
+        if isinstance(e, ast.BinOp) and isinstance(e.op, ast.Add):
+            return self._provably_str(fn, e.left, depth + 1) and self._provably_str(fn, e.right, depth + 1)
+        if isinstance(e, ast.Call):
+            if isinstance(e.func, ast.Attribute) and e.func.attr in self.STR_RESULT_METHODS:
+                return True
+            return isinstance(e.func, ast.Name) and e.func.id in ("str", "repr", "format", "chr")
+        if isinstance(e, ast.Name):
+            top = fn
+            while top.parent is not None:
+                top = top.parent
+            for p_ in fn.params:
+                if p_.name == e.id:
+                    return p_.ann is not None and (dotted(p_.ann) or "") == "str"
+            defs = [x for x in ast.walk(fn.node) if isinstance(x, (ast.Assign, ast.AugAssign, ast.For, ast.With, ast.NamedExpr))
+                    and any(isinstance(t, ast.Name) and t.id == e.id for t in ast.walk(x) if isinstance(t, ast.Name) and isinstance(t.ctx, ast.Store))]
+            if defs:
+                return all(isinstance(d, ast.Assign) and len(d.targets) == 1 and isinstance(d.targets[0], ast.Name)
+                           and self._provably_str(fn, d.value, depth + 1) for d in defs)
+            c = fn.module.consts.get(e.id)
+            return c is not None and self._provably_str(fn, c, depth + 1)
+        if isinstance(e, ast.Attribute) and isinstance(e.value, ast.Name) and e.value.id in ("self", "cls"):
+            ci = fn.cls if fn.cls is not None else (fn.parent.cls if fn.parent is not None else None)
+            c = ci.consts.get(e.attr) if ci is not None else None
+            return c is not None and self._provably_str(fn, c, depth + 1)
+        return False
+
+    def _only_str_concat(self, fn: FunctionInfo, a: Optional[ast.AST]) -> bool:
+        """The non-call part of statement / expression `a` can raise only through `+`, and every `+` joins provable strings."""
+        if a is None:
+            return False
+        roots = [c for c in ast.iter_child_nodes(a) if isinstance(c, ast.expr)] if isinstance(a, ast.stmt) else [a]
+        seen_add = False
+        for r in roots:
+            stack = [r]
+            while stack:
+                x = stack.pop()
+                if isinstance(x, ast.Lambda):
+                    continue
+                if isinstance(x, ast.BinOp):
+                    if isinstance(x.op, ast.Add) and self._provably_str(fn, x):
+                        seen_add = True
+                        # operands are judged as a whole; their calls are separate (fallible) call nodes
+                        stack.extend(c for c in ast.walk(x) if isinstance(c, ast.Call))
+                        continue
+                    if not (isinstance(x.left, ast.Constant) and isinstance(x.right, ast.Constant)):
+                        return False
+                if isinstance(x, ast.Subscript) and isinstance(x.ctx, ast.Load):
+                    return False
+                if isinstance(x, ast.Compare) and any(isinstance(o, (ast.Lt, ast.LtE, ast.Gt, ast.GtE)) for o in x.ops):
+                    return False
+                if isinstance(x, (ast.Await, ast.Yield, ast.YieldFrom, ast.ListComp, ast.SetComp, ast.DictComp, ast.GeneratorExp)):
+                    return False
+                if isinstance(x, ast.UnaryOp) and isinstance(x.op, (ast.USub, ast.Invert)) and not isinstance(x.operand, ast.Constant):
+                    return False
+                stack.extend(ast.iter_child_nodes(x))
+        return seen_add
 
     # ------------------------------------------------- provably non-raising bookkeeping (counters, timers, log lines)
     CLOCKS = {"time.time", "time.monotonic", "time.perf_counter", "time.process_time", "time.monotonic_ns", "time.time_ns",
